@@ -55,6 +55,9 @@ def analyse(spec):
     out['fails'].append('degrees of freedom %r, expected n_pre - 2 = %d' % (dfree, spec['n_pre'] - 2))
   # the optional arguments of the posterior: one day (time), another unit (rescale), both, and the test period alone
   import numpy as np
+  # (cumulative effects can cancel to ~0: figures are compared on the scale of the largest of them)
+  mag = 1e-10 * max([1.0] + [abs(v) for v in loc] + [abs(v) for v in scale])
+  near = lambda a_, b_, f_=1.0: close(a_, b_, 1e-12) or abs(a_ - b_) <= mag * max(1.0, abs(f_))
   r5 = random.Random(spec['seed'] * 59 + 7)
   for _ in range(3):
     t = r5.choice([-1, 0, len(loc) - 1, r5.randrange(len(loc))])
@@ -65,7 +68,7 @@ def analyse(spec):
       rr = kw.get('rescale', 1.0)
       wl = [rr * loc[t]] if 'time' in kw else [rr * v for v in loc]
       ws = [rr * scale[t]] if 'time' in kw else [rr * v for v in scale]
-      if not (len(l2) == len(wl) and all(close(a, b, 1e-12) for a, b in zip(l2, wl)) and all(close(a, b, 1e-12) for a, b in zip(s2, ws))
+      if not (len(l2) == len(wl) and all(near(a, b, rr) for a, b in zip(l2, wl)) and all(near(a, b, rr) for a, b in zip(s2, ws))
               and float(d2.args[0]) == dfree):
         out['fails'].append('causal_cumulative_distribution(%s) is not the default posterior %s'
                             % (', '.join('%s=%r' % kv for kv in kw.items()),
@@ -76,7 +79,7 @@ def analyse(spec):
     d3 = m.causal_cumulative_distribution(periods=(per,))
     l3, s3 = [float(v) for v in d3.kwds['loc']], [float(v) for v in d3.kwds['scale']]
     nt = spec['n_test']
-    if not (len(l3) == nt and all(close(a, b, 1e-12) for a, b in zip(l3, loc[:nt])) and all(close(a, b, 1e-12) for a, b in zip(s3, scale[:nt]))):
+    if not (len(l3) == nt and all(near(a, b) for a, b in zip(l3, loc[:nt])) and all(near(a, b) for a, b in zip(s3, scale[:nt]))):
       out['fails'].append('causal_cumulative_distribution(periods=(test,)) is not the posterior of the test days')
   # layout independence
   for name, kw in (('shuffled rows', {'shuffle': spec['seed']}), ('group split over more geos', {'split': True}),
